@@ -49,6 +49,31 @@ func isFileCreate(cc *ssa.CallCommon) (nameArg int, ok bool) {
 	return 0, false
 }
 
+// openFlagsArg: the index of the flag argument when cc is an OpenFile call.
+func openFlagsArg(cc *ssa.CallCommon) (int, bool) {
+	switch {
+	case callIsMethod(cc, "os", "Root", "OpenFile") && len(cc.Args) >= 3:
+		return 2, true
+	case callIsPkgFunc(cc, "os", "OpenFile") && len(cc.Args) >= 2:
+		return 1, true
+	}
+	return 0, false
+}
+
+// osFlag: the value of the os package constant in the loaded configuration (they differ between operating systems).
+func (c *Ctx) osFlag(name string) int64 {
+	for _, pk := range c.P.SSA.AllPackages() {
+		if pk.Pkg.Path() == "os" {
+			if k := pk.Const(name); k != nil {
+				if v, ok := constInt(k.Value); ok {
+					return v
+				}
+			}
+		}
+	}
+	return 0
+}
+
 func isRename(cc *ssa.CallCommon) (oldArg, newArg int, ok bool) {
 	if callIsMethod(cc, "os", "Root", "Rename") {
 		return 1, 2, true
@@ -115,6 +140,18 @@ func ruleC15_1(c *Ctx) {
 				c.Fail("C15.1", key, desc, where+": the key's own file is created/truncated and written in place. Witness: a concurrent Get reads a prefix; a write cut at byte k (full disk, kill) leaves a k-byte value that is later returned as valid", where)
 				return
 			}
+			// the temporary file starts empty: Create truncates; OpenFile must ask for O_TRUNC or O_EXCL. A leftover of a killed
+			// writer under the same name (the sequence restarts with the process, and so may the pid) would otherwise keep
+			// its tail behind the new value
+			if fi, isOpen := openFlagsArg(cc); isOpen {
+				if k, isC := constInt(cc.Args[fi]); isC {
+					trunc, excl := c.osFlag("O_TRUNC"), c.osFlag("O_EXCL")
+					if trunc != 0 && k&trunc == 0 && (excl == 0 || k&excl == 0) {
+						c.Fail("C15.1", "temp-starts-empty fn="+c.P.ShortName(fn), "the temporary file is created empty (truncated or exclusive)", where+fmt.Sprintf(": OpenFile flags %#x contain neither O_TRUNC nor O_EXCL; a longer leftover temporary file of a killed writer keeps its tail, and Get returns the new value followed by old bytes", k), where)
+						return
+					}
+				}
+			}
 			// the temporary name must be unique per writer: it depends on a counter, random source or clock
 			uniq := c.An.dependsOnCall(name, func(x *ssa.Call) bool {
 				sc := x.Call.StaticCallee()
@@ -152,7 +189,10 @@ func ruleC15_1(c *Ctx) {
 					c2 := callOf(i2)
 					return c2 != nil && (callIsMethod(c2, "os", "File", "Write") || callIsMethod(c2, "os", "File", "WriteString") || callIsMethod(c2, "os", "Root", "WriteFile") || callIsPkgFunc(c2, "os", "WriteFile"))
 				}},
-				{"Sync", func(i2 ssa.Instruction) bool { c2 := callOf(i2); return c2 != nil && callIsMethod(c2, "os", "File", "Sync") }},
+				{"Sync", func(i2 ssa.Instruction) bool {
+					c2 := callOf(i2)
+					return c2 != nil && callIsMethod(c2, "os", "File", "Sync")
+				}},
 				{"Close", func(i2 ssa.Instruction) bool {
 					if _, isDefer := i2.(*ssa.Defer); isDefer {
 						return false // a deferred Close runs after the rename
